@@ -48,7 +48,7 @@ type lDecl struct {
 	// func
 	Name     string
 	BodyNote string   // comment inside the body (noise)
-	BodyDecl int // declarations INSIDE the function body, each with a marker comment in front (1: interface type, 2: var block, 3: both): not package-level declarations
+	BodyDecl int      // declarations INSIDE the function body, each with a marker comment in front (1: interface type, 2: var block, 3: both): not package-level declarations
 	Detached []string // a detached comment group before the declaration (noise)
 }
 
